@@ -225,6 +225,55 @@ def _walk(rec, commands):
             rec.violation('default-construct-failed',
                           '%s() %s' % (q, c.describe()), {'fact': q})
             continue
+        # the same facts read through INSTANCES (default-constructed, every
+        # flag set, decoded from the wire) - a frame object must describe
+        # itself exactly like its class does
+        insts = [('default instance', c.value)]
+        allset = {n: (True if t == 'bit' and
+                      gf.constraint_of(sp, n)[0] is None else
+                      sp.python_default(n)) for n, t, _ in sp.args}
+        c2 = call(cls, **allset)
+        if c2.ok:
+            insts.append(('instance with every flag set', c2.value))
+        try:
+            wire_ = refcodec.enc_method(idx, {
+                n: (True if t == 'bit' else {} if t == 'table' else
+                    0 if t in ('octet', 'short', 'long', 'longlong')
+                    else 'x') for n, t, _ in sp.args}, 1)
+            u = common.lib_unmarshal(wire_)
+            if u.ok:
+                insts.append(('decoded instance', u.value[2]))
+        except refcodec.RefError:
+            pass
+        for label, o in insts:
+            _fact(rec, '%s %s .synchronous' % (q, label),
+                  getattr(o, 'synchronous', None), bool(sp.replies),
+                  'synchronous-flag')
+            _fact(rec, '%s %s .valid_responses' % (q, label),
+                  list(getattr(o, 'valid_responses', ())), sp.replies,
+                  'valid-responses')
+            _fact(rec, '%s %s .name/.index/.frame_id' % (q, label),
+                  [getattr(o, 'name', None), getattr(o, 'index', None),
+                   getattr(o, 'frame_id', None)],
+                  [sp.name, idx, sp.method_id], 'instance-identity')
+            _fact(rec, '%s %s exact type' % (q, label), type(o) is cls,
+                  True, 'class-path')
+        # an omitted argument takes its default whatever else is supplied
+        for n, t, d in sp.args:
+            kind_, fixed_ = gf.constraint_of(sp, n)
+            given = (fixed_ if kind_ == refspec.FIXED else
+                     True if t == 'bit' else {'k': 1} if t == 'table' else
+                     200 if t in ('octet', 'short', 'long', 'longlong')
+                     else 'x')
+            c3 = call(cls, **{n: given})
+            if not c3.ok:
+                continue
+            for n2, t2, d2 in sp.args:
+                if n2 != n:
+                    _fact(rec, '%s(%s=...) default of omitted %s'
+                          % (q, n, n2),
+                          getattr(c3.value, n2, boundary.Missing),
+                          sp.python_default(n2), 'constructor-default')
         docd = _doc_defaults(cls)
         for n, t, d in sp.args:
             exp = sp.python_default(n)
